@@ -57,7 +57,7 @@ type verifScmpConn struct{}
 
 func (verifScmpConn) ReadBatch(conn.Messages) (int, error)       { return 0, nil }
 func (verifScmpConn) WriteBatch(conn.Messages, int) (int, error) { return 0, nil }
-func (verifScmpConn) Close() error                                { return nil }
+func (verifScmpConn) Close() error                               { return nil }
 
 // verifScmpOpener satisfies udpip.ConnOpener structurally (SetConnOpener type-asserts it).
 type verifScmpOpener struct{ reuse bool }
